@@ -235,8 +235,8 @@ def well_formed(rules_list: list[Rule]) -> bool:
     for _name, _mod, body in rules_list:
         for e in walk(body):
             k = e[0]
-            if k in ("star", "plus") and nullable(e[1], rules):
-                return False
+            if k in ("star", "plus") and nullable(e[1], rules) and e[1][0] not in ("drop", "pop"):
+                return False  # (DROP* / POP* are fine: every iteration removes a stack entry, and both fail on an empty stack)
             if k == "rep":
                 if nullable(e[1], rules):
                     return False
@@ -346,6 +346,7 @@ KINDS: dict[str, tuple[Expr, bool]] = {
     # prefix-sharing choices with case-insensitive members (ordered choice must keep its order when squashed)
     "skipidiomci": (("seq", ("star", ("seq", ("not", ("istr", "ab")), ("any",))), ("istr", "ab")), False),
     "skipidiomci2": (("seq", ("star", ("seq", ("not", ("choice", ("istr", "k"), S("b"))), ("any",))), ("any",)), False),
+    "choice1pt": (("choice", ("range", "a", "a"), ("range", "c", "b"), S("x"), ("range", "b", "b")), False),  # one-point and empty ranges among alternatives
     "choiceci": (("choice", A, ("istr", "ab")), False),
     "choiceci2": (("choice", ("range", "a", "c"), ("istr", "ab"), B), False),
     "choiceci3": (("choice", ("istr", "a"), S("ab"), ("istr", "abc")), False),
@@ -438,6 +439,10 @@ KINDS: dict[str, tuple[Expr, bool]] = {
     "peek00": (("seq", ("pushlit", "a"), ("peekslice", 0, 0)), True),
     "peek10": (("seq", ("pushlit", "a"), ("peekslice", 1, 0)), True),
     "peekm10": (("seq", ("pushlit", "a"), ("peekslice", -1, 0)), True),
+    # zero-width iterations that still make progress on the stack
+    "dropstar": (("seq", ("pushlit", "a"), ("star", ("drop",)), ("peekall",)), True),
+    "popstar": (("seq", ("pushlit", ""), ("star", ("pop",)), ("opt", ("drop",))), True),
+    "dropplus": (("seq", ("plus", ("drop",)), ("not", ("peek",))), True),
     "peekall": (("peekall",), True),
     "pop": (("pop",), True),
     "popall": (("popall",), True),
@@ -516,6 +521,9 @@ TRIVIA: dict[str, list[Rule]] = {
     "bothn": [WSN, CMN],
     "bothn1": [WSN, ("COMMENT", "", ("str", "#"))],
     "cmb": [CMB],
+    # a comment that touches the user stack before it can fail: a partial match has to be undone on the stack too
+    "cmstack": [("COMMENT", "_", ("seq", ("str", "#"), ("push", ("str", "!")), ("str", "a"), ("drop",)))],
+    "bothstack": [WS2, ("COMMENT", "", ("seq", ("str", "#"), ("push", ("opt", ("str", "!"))), ("str", "a"), ("pop",)))],
     "bothb": [WS2, CMB],
 }
 
